@@ -78,8 +78,10 @@ def judge(byc, res):
 
 
 def cfgs(tier):
-    cs = [l3.Cfg("unanch", re="unanch", match_keys=("zzsecretA", "uf1.zzsecretA")),
-          l3.Cfg("anch", re="anch", num=True, bool=True, match_keys=("zzsecretA",))]
+    cs = [l3.Cfg("unanch", re="unanch", match_keys=("zzsecretA", "uf1.zzsecretA", "zzsecretAx")),
+          l3.Cfg("anch", re="anch", num=True, bool=True, match_keys=("zzsecretA",)),
+          # a pattern that is one anchored word: a name that merely starts with it does not match
+          l3.Cfg("anch1", re="anch1", match_keys=("zzsecretA",))]
     if tier == "thorough":
         cs += [l3.Cfg("ci", re="ci", num=True, match_keys=("zzsecretA", "uf1.zzsecretA"), replacement="Q"),
                l3.Cfg("anchw", re="anch", ns=True, ips=True, match_keys=("zzsecretA",))]
@@ -91,7 +93,7 @@ def run(tier):
     b = common.build(need_inproc=False)
     cs = cfgs(tier)
     rp = l3.Replay(b, v, cs, "checks.c14:judge", variants=2 if tier == "quick" else 3)
-    fields = '{"uf1", "zzsecretA", "uf1.zzsecretA"}'
+    fields = '{"uf1", "zzsecretA", "uf1.zzsecretA", "zzsecretAx"}'
     gm = {"GMDepth": "5", "GMWide": "1", "GMMaxFld": "2", "GMMaxArr": "1", "GMTail": "1", "GMSeeds": "<< >>", "GMFields": fields,
           "GMSlots": '{"filter","update","updates","deletes","documents","pipeline"}',
           "GMKinds": '{"plain","email","num","bool","date","oid","b64"}'}
